@@ -21,7 +21,8 @@ def run(ck):
         'Selector / ConstraintSystem / RefCell::borrow_mut / Cell::set API in its body, no write to a captured place; deliberate exceptions are tabled with a '
         'containment rule each. E3: keygen ignores advice closures and the prover ignores fixed/copy/selector calls, so the two passes partition structure and '
         'witness. E4: lazily loaded tables depend only on used_* flags set outside Value closures. Witness-conditioned panics/errors abort proving but do not '
-        'change structure and are reported as information.')
+        'change structure and are reported as information. For the tabled witness-index hacks the containment rule also proves that the table element selected '
+        'with the witness-derived index only feeds value-only consumers (never returned, cloned into the result or passed on).')
     e1(ck, w)
     e2(ck, w)
     e3(ck, w)
